@@ -40,7 +40,7 @@ Definition inverse (x : Z) : option Z :=
 Definition inverse_or_zero (x : Z) : Z :=
   if x =? bfe_zero then bfe_zero else inverse_chain x.
 (* Div: other.inverse() * self *)
-Definition div (a b : Z) : option Z :=
+Definition bfe_div (a b : Z) : option Z :=
   match inverse b with None => None | Some bi => Some (bfe_mul bi a) end.
 
 (* FiniteField::batch_inversion, generic in the field operations *)
